@@ -41,8 +41,13 @@
 #include <stdio.h>
 #include "nifty.h"
 
+#if !(defined ECHSE_VERIF && defined ECHSE_VERIF_FDBUF)
+# define ECHSE_VERIF_FDBUF	4096U
+#endif
 static struct {
-	char buf[4096U];
+	/* verification hook: the size may be preset to something a bounded
+	 * checker can hold, all users are symbolic in sizeof(buf) */
+	char buf[ECHSE_VERIF_FDBUF];
 	size_t bi;
 	int fd;
 } fd_aux;
